@@ -450,18 +450,18 @@ func Finish(r *Report, c *Ctx, verifDir, tier string, seed int64, t0 time.Time, 
 		nfun = len(ssautil.AllFunctions(c.prog))
 	}
 	cov := map[string]interface{}{
-		"explanation":             r.Explanation,
-		"obligations":             len(r.Obls),
-		"discharged":              discharged,
-		"known_findings":          len(knownHit),
-		"violations_unlisted":     len(viol),
-		"rule_instances":          r.RuleCounts,
-		"rule_floors":             r.Floors,
-		"samples":                 samples,
-		"checker_cmd":             fmt.Sprintf("checker/bin/verifchk -prop %s -tier %s", r.Prop, tier),
-		"trusted_base":            []string{"go/types, go/packages, x/tools go/ssa + callgraph/vta v0.29.0", "the rule tables in /verif/checker/chk"},
+		"explanation":              r.Explanation,
+		"obligations":              len(r.Obls),
+		"discharged":               discharged,
+		"known_findings":           len(knownHit),
+		"violations_unlisted":      len(viol),
+		"rule_instances":           r.RuleCounts,
+		"rule_floors":              r.Floors,
+		"samples":                  samples,
+		"checker_cmd":              fmt.Sprintf("checker/bin/verifchk -prop %s -tier %s", r.Prop, tier),
+		"trusted_base":             []string{"go/types, go/packages, x/tools go/ssa + callgraph/vta v0.29.0", "the rule tables in /verif/checker/chk"},
 		"ssa_functions_in_program": nfun,
-		"exhaustive":              false,
+		"exhaustive":               false,
 	}
 	if c != nil {
 		cov["packages_loaded"] = len(c.Pkgs)
